@@ -1,9 +1,17 @@
+import MiniconfVerif.Lemmas.Factor
 import MiniconfVerif.Lemmas.Chain
-import MiniconfVerif.Model.Transcode
+import MiniconfVerif.Props.C09
 
 /-! # C04 — key representations are interchangeable; transcoding is lossless
-(first instalment: chaining and the callback contract; the per-representation
-left-inverse theorems are being added, see DESIGN.md §7 C04) -/
+
+Model: `Schema.traverse` / `transcode` with the targets of Model/Transcode.lean and the key
+sources of Model/Keys.lean.  Proved: chaining = concatenation; every traversal (any key source)
+factors through an index path with exactly one callback per consumed key; every target is a
+function of that path only (so all keys of one node are interchangeable for every
+representation), the index form is the position tuple, the packed form decodes back to the
+node, re-transcoding is a fixpoint.  The *text* forms (`Path`, `JsonPath`: rendering then
+splitting and looking the names up again) are covered by C15's splitter theorems plus the
+correspondence runs; their end-to-end round trip is not a theorem here. -/
 namespace MiniconfVerif.C04
 open MiniconfVerif
 
@@ -24,6 +32,93 @@ theorem bisimilar_sources_interchangeable {σ : Type} {R : KeySrc → KeySrc →
     (cb : σ → CbArg → Option σ) (s : Schema) (k1 k2 : KeySrc) (st : σ) (h : R k1 k2) :
     s.traverse cb k1 st = s.traverse cb k2 st :=
   traverse_bisim hR cb s k1 k2 st h
+
+/-- **The callback contract**: for every key source the recording callback ends up with exactly
+the arguments `(index, name, sibling count)` of the consumed levels, in order, one per consumed
+key; an `Ok(depth)` reports exactly that many. -/
+theorem callback_once_per_key (s : Schema) (hwf : s.WF) (ks : KeySrc) :
+    ∃ p t, s.at? p = some t ∧ (s.traverse recCb ks []).2 = argsAlong s p ∧ (argsAlong s p).length = p.length ∧
+      (∀ d, (s.traverse recCb ks []).1 = .ok d → d = p.length ∧ t.isLeaf = true) := by
+  obtain ⟨p, hp⟩ := traverse_factor recCb s ks [] hwf
+  rcases hp with ⟨t, ks', st', h1, h2, h3, h4⟩ | ⟨q, i, t, stq, _, _, _, _, h5, _⟩
+  · rw [cbAlong_rec p s t [] h1] at h2
+    simp only [List.nil_append, Option.some.injEq] at h2
+    refine ⟨p, t, h1, by rw [h4, h2], argsAlong_length p s t h1, ?_⟩
+    intro d hd
+    rw [h4] at hd
+    simp only [stopAt] at hd
+    cases hl : t.isLeaf with
+    | true =>
+      simp only [hl, if_true] at hd
+      cases hf : ks'.finalize with
+      | ok u => simp only [hf, incrN_ok] at hd; cases hd; exact ⟨by omega, rfl⟩
+      | error e =>
+        simp only [hf] at hd
+        exfalso
+        have : ∀ n, ∃ e', Res.incrN n (.trav e) = .trav e' := by
+          intro n; induction n with
+          | zero => exact ⟨e, rfl⟩
+          | succ n ih => obtain ⟨e', he'⟩ := ih; exact ⟨e'.incr, by simp [Res.incrN, he', Res.incr]⟩
+        obtain ⟨e', he'⟩ := this p.length
+        rw [he'] at hd; cases hd
+    | false =>
+      simp only [hl, Bool.false_eq_true, if_false] at hd
+      exfalso
+      have : ∀ (e : Trav) n, ∃ e', Res.incrN n (.trav e) = .trav e' := by
+        intro e n; induction n with
+        | zero => exact ⟨e, rfl⟩
+        | succ n ih => obtain ⟨e', he'⟩ := ih; exact ⟨e'.incr, by simp [Res.incrN, he', Res.incr]⟩
+      cases hn : ks'.next t.lookup with
+      | ok r => simp only [hn] at hd; obtain ⟨e', he'⟩ := this (.panic "not a stop") p.length; rw [he'] at hd; cases hd
+      | error e => simp only [hn] at hd; obtain ⟨e', he'⟩ := this e p.length; rw [he'] at hd; cases hd
+  · simp [recCb] at h5
+
+/-- **Any key, any representation**: every key source walks some node path `p`; what a target
+with enough capacity holds afterwards is a function of `p` alone — the same as transcoding the
+position tuple `p` itself.  Hence all keys that denote one node are interchangeable. -/
+theorem any_key_any_target (s : Schema) (hwf : s.WF) (hsm : s.Small) (fresh : Target) (hacc : Accepts s fresh)
+    (ks : KeySrc) :
+    ∃ p t, s.at? p = some t ∧ (s.transcode ks fresh).2 = tgtAt s fresh p ∧
+      (s.transcode (.list (intKeys p)) fresh).2 = tgtAt s fresh p ∧
+      (∀ d, (s.transcode ks fresh).1 = .leaf d ∨ (s.transcode ks fresh).1 = .internal d →
+        (s.transcode (.list (intKeys p)) fresh).1 = (s.transcode ks fresh).1) := by
+  obtain ⟨p, t, ks', h1, h2, h3⟩ := transcode_factor s hwf fresh hacc ks
+  have hidx := transcode_index_key s t hwf hsm fresh hacc p h1
+  refine ⟨p, t, h1, by rw [h3], by rw [hidx], ?_⟩
+  intro d hd
+  rw [hidx, h3] at *
+  exact (stop_node_kind t ks' p.length h2 d hd).symm
+
+/-- **The index form is the node's position tuple**, and re-transcoding it is a fixpoint -/
+theorem index_form_is_position (s : Schema) (hwf : s.WF) (hsm : s.Small) (ks : KeySrc) :
+    ∃ p t, s.at? p = some t ∧
+      (s.transcode ks (.idx [] s.maxDepth (2 ^ 64 - 1))).2 = .idx p s.maxDepth (2 ^ 64 - 1) ∧
+      (s.transcode (.list (intKeys p)) (.idx [] s.maxDepth (2 ^ 64 - 1))).2 = .idx p s.maxDepth (2 ^ 64 - 1) := by
+  have har : ∀ q u, s.at? q = some u → u.arity ≤ (2 ^ 64 - 1) + 1 := fun q u h => by
+    have := hsm q u h; omega
+  have hacc := accepts_idx s s.maxDepth (2 ^ 64 - 1) (Nat.le_refl _) har
+  obtain ⟨p, t, h1, h2, h3, _⟩ := any_key_any_target s hwf hsm _ hacc ks
+  have := tgtAt_idx s s.maxDepth (2 ^ 64 - 1) (Nat.le_refl _) har p t h1
+  exact ⟨p, t, h1, by rw [h2, this], by rw [h3, this]⟩
+
+/-- **The packed form** of any key is the packed key of the node it denotes, which decodes back
+to exactly that node (kind, depth and position), when `max_bits` fits the word -/
+theorem packed_form_resolves (s : Schema) (hwf : s.WF) (hsm : s.Small) (hmax : s.meta.maxBits ≤ 63) (ks : KeySrc) :
+    ∃ p t w, s.at? p = some t ∧ (s.transcode ks (.packed Gen.Packed.EMPTY)).2 = .packed w ∧
+      C09.packOf s p = some w ∧
+      s.transcode (.packed w) (.idx [] s.maxDepth (2 ^ 64 - 1)) = (C09.kindAt t p.length, .idx p s.maxDepth (2 ^ 64 - 1)) := by
+  have har : ∀ q u, s.at? q = some u → u.arity ≤ (2 ^ 64 - 1) + 1 := fun q u h => by
+    have := hsm q u h; omega
+  have hacc := accepts_packed s hwf hsm hmax
+  obtain ⟨p, t, h1, h2, _, _⟩ := any_key_any_target s hwf hsm _ hacc ks
+  have hfit : pathW Wbits s p ≤ 63 := Nat.le_trans (node_bits_le_max s t hwf p h1) hmax
+  obtain ⟨w, hw1, hw2, _⟩ := C09.encode s t hwf hsm p h1 hfit
+  have htg : tgtAt s (.packed Gen.Packed.EMPTY) p = .packed w := by
+    have := transcode_index_key s t hwf hsm _ hacc p h1
+    rw [hw2] at this
+    exact (Prod.mk.inj this).2.symm
+  refine ⟨p, t, w, h1, by rw [h2, htg], hw1, ?_⟩
+  exact C09.decode s t hwf hsm p h1 hmax w hw1 s.maxDepth (2 ^ 64 - 1) (Nat.le_refl _) har
 
 /-! ## non-vacuity -/
 def ex : Schema := .node (.named ["foo", "bar"]) [.leaf, .array 3 .leaf]
